@@ -26,7 +26,8 @@ import scipy.linalg as sla
 from . import common
 
 PROP = "C10"
-LEAN_MODULES = ["MiciVerif.Props.C10"]
+LEAN_MODULES = ["MiciVerif.Props.C10", "MiciVerif.Props.C10S"]
+GENERATED = ["matrix_ops"]
 LEAN_EXTRA = [
     "MiciVerif.Model.Matrices",
     "MiciVerif.Model.MatricesEval",
@@ -799,6 +800,34 @@ def observe(obj, d, bl, br, deep=True):
 
         rec("eigvec@diag(eigval)@eigvec.T", recon, d)
         rec("eigvec orthogonal", lambda: (lambda q: q @ q.T)(np.array(obj.eigvec.array)), np.eye(n))
+        if deep:
+            # eigendecompositions of DERIVED symmetric objects (they may reuse the parent's cached factors)
+            def recon_of(make):
+                def f():
+                    o = make()
+                    if not isinstance(o, M.SymmetricMatrix):
+                        return None
+                    q = np.array(o.eigvec.array)
+                    ev = np.array(o.eigval, dtype=float).reshape(-1) * np.ones(n)
+                    return q @ np.diag(ev) @ q.T
+                return f
+
+            def rec_recon(name, make, ref):
+                try:
+                    with warnings.catch_warnings():
+                        warnings.simplefilter("ignore")
+                        val = _with_timeout(recon_of(make))
+                except _Timeout:
+                    val = RuntimeError("timeout")
+                except Exception as e:  # noqa: BLE001
+                    val = e
+                if val is not None:
+                    out.append((name, val, ref, None))
+
+            if isinstance(obj, M.InvertibleMatrix):
+                rec_recon("inv: eigvec@diag(eigval)@eigvec.T", lambda: obj.inv, np.linalg.inv(d))
+            rec_recon("(2.5*x): eigvec@diag(eigval)@eigvec.T", lambda: 2.5 * obj, 2.5 * d)
+            rec_recon("(-x): eigvec@diag(eigval)@eigvec.T", lambda: -obj, -d)
     if isinstance(obj, M.PositiveDefiniteMatrix):
         rec("sqrt@sqrt.T", lambda: (lambda s: s @ s.T)(np.array(obj.sqrt.array)), d)
         rec("sqrt@vec", lambda: obj.sqrt @ (obj.sqrt.T @ bl[:, 0]), d @ bl[:, 0])
@@ -878,6 +907,31 @@ def check_tree(ctx, sp, bl, br, model_line, deep=True):
         return 1
     d = dense(sp)
     obs = observe(obj, d, bl, br, deep)
+    # second pass on a FRESH object whose lazily cached properties are touched first, in an order derived
+    # from the spec: objects derived afterwards (.inv, .T, scalar multiples, sqrt) may reuse cached factors
+    # of the parent and must still agree with dense algebra (seeds C10-1, C10-2, C07-2, C19-1)
+    if deep:
+        try:
+            with warnings.catch_warnings():
+                warnings.simplefilter("ignore")
+                obj_w = _with_timeout(lambda: build(sp))
+                order = ["eigval", "eigvec", "sqrt", "log_abs_det", "factor", "lu_and_piv", "capacitance_matrix",
+                         "T", "inv", "diagonal", "array"]
+                import random as _random  # noqa: PLC0415
+
+                rnd = _random.Random(common.stable_hash(case))
+                rnd.shuffle(order)
+                for nm in order[: rnd.randint(1, 5)]:
+                    try:
+                        _with_timeout(lambda nm=nm: getattr(obj_w, nm))
+                    except Exception:  # noqa: BLE001, S110
+                        pass
+            obs += [("warm:" + nm_, v_, r_, s_) for nm_, v_, r_, s_ in observe(obj_w, d, bl, br, deep)
+                    if nm_ not in ("shape", "T is self")]
+        except Exception as e:  # noqa: BLE001
+            ctx.violation(f"construct {sp[0]} [{fam}]", f"building the expression a second time raised {type(e).__name__}: {e}",
+                          {**case, "observable": "construct"})
+            return 1
     if sp[0] == "LR":  # the capacitance matrix itself, with the sign: K^-1 + sign V S^-1 U
         ud = dense(sp[3])
         vd = ud.T if sp[4] is None else dense(sp[4])
@@ -1121,6 +1175,14 @@ def run(ctx: common.Ctx):
     ]
     max_depth = ctx.n(4, 7)
     max_n = ctx.n(4, 5)
+    # A broken C10S obligation (the class algebra extracted from the source no longer equals the model's)
+    # escalates the failing-input search; the driver only needs the model modules, make sure they are built.
+    broken_s = [o["theorem"] for o in ctx.obligations if not o["ok"] and ".C10S." in o["theorem"]]
+    if not ctx.build_ok:
+        common.lake_build(LEAN_EXTRA)
+    esc = 2 if broken_s else 1
+    if broken_s:
+        ctx.extra["escalated_by"] = broken_s[:8]
     # ---- corpus (past disagreements / finding inputs), always first -------------------------
     import json  # noqa: PLC0415
 
@@ -1136,7 +1198,7 @@ def run(ctx: common.Ctx):
     # ---- exact trees: model + dense ---------------------------------------------------
     g = Gen(rng, True, max_depth, max_n)
     specs, reqs, bls, brs = [], [], [], []
-    n_exact = ctx.n(2200, 12000)
+    n_exact = esc * ctx.n(2200, 12000)
     tries = 0
     while len(specs) < n_exact and tries < 20 * n_exact:
         tries += 1
@@ -1167,7 +1229,7 @@ def run(ctx: common.Ctx):
         check_tree(ctx, sp, bl, br, line, deep=True)
     # ---- dense-only trees ---------------------------------------------------------------
     g2 = Gen(rng, False, max_depth, max_n)
-    n_dense = ctx.n(2200, 12000)
+    n_dense = esc * ctx.n(2200, 12000)
     done = 0
     tries = 0
     while done < n_dense and tries < 20 * n_dense:
@@ -1231,7 +1293,20 @@ LEVEL_TEXT = (
     "eig_blockDiag; evaluator_agrees (the value-level evaluator run by the driver equals the model functions). "
     "Tied to the code by random expression trees (depth <= 4 quick / 7 thorough, sizes 1..5 incl. block sums, both "
     "signs, upper/lower, factors given or absent, precomputed LU/eigen/capacitance data) compared with the model's exact "
-    "rational denote/diagonal/sdet/leftMul/rightMul/class name and with dense NumPy for every observable."
+    "rational denote/diagonal/sdet/leftMul/rightMul/class name and with dense NumPy for every observable. "
+    "Props/C10S (translator tie, re-decided on every run against Generated/MatrixOps.lean = the effective bodies of "
+    "_scalar_multiply/_construct_transpose/_construct_inv/_construct_sqrt/... of all 42 classes extracted from the "
+    "current source, super()/type(self) resolved per concrete class): for EVERY model expression e the class the "
+    "source returns for an object of class cls e on the branch selected by the sign of the scalar equals cls (smul sg "
+    "r e) / cls (T e) / cls (inv e) (smul_class_agrees, transpose_class_agrees, inv_class_agrees), "
+    "isinstance(., InvertibleMatrix/PositiveDefiniteMatrix/SymmetricMatrix) is the model's predicate, "
+    "_choose_matrix_product_class is the model's chooseProd (chooseProduct_agrees); closure facts decided on the table "
+    "(pd_inv_closed, pd_pos_scale_closed, pd_neg_scale_symmetric_not_pd, sym_scale_closed, sym_transpose_is_self, "
+    "invertible_closed, pd_has_sqrt, every_class_scales_and_transposes); operator wrappers (-M = _scalar_multiply(-1), "
+    "M/c = _scalar_multiply(1/c), M@N = chosen product class, lazy .T/.inv/.sqrt; no class overrides them); the "
+    "constructor ARGUMENTS of every operation of every modelled class, path by path (params_*: lower flipped under "
+    "transpose, same array and lower under inverse, 1/scalar, sign kept / flipped, factor.inv.T, ...); the capacitance "
+    "matrix expression of the three low-rank classes evaluates for all values to K^-1 + sign V S^-1 U (capacitance_formula)."
 )
 LEVEL_NOTE = (
     "Trusted: Lean kernel, axioms {propext, Classical.choice, Quot.sound}; LAPACK solves/factorisations are modelled as "
@@ -1248,5 +1323,7 @@ LEVEL_NOTE = (
 )
 TECHNIQUE = (
     "Lean 4 theorems by structural induction over matrix expressions (Mathlib matrices over a field, checked-inverse "
-    "data) + random expression-tree correspondence against the exact rational model and dense NumPy"
+    "data) + random expression-tree correspondence against the exact rational model and dense NumPy + AST translator "
+    "(tools/extractors/matrix_ops.py) of every class's operation bodies into a symbolic table whose class algebra and "
+    "constructor arguments are proved equal to the model's (Props/C10S, decide +kernel / case analysis over MExpr)"
 )
